@@ -165,13 +165,15 @@ def plan(tier, seed):
              (["pixee:python/sandbox-process-creation", "pixee:python/url-sandbox"], ["security"], "import requests\nimport subprocess\nfrom flask import request\ndef v():\n    requests.get(request.args['u'])\n    subprocess.run(request.args['c'])\n"),
              (["pixee:python/use-defusedxml", "pixee:python/harden-pickle-load"], ["defusedxml", "fickling"], "import xml.sax\nimport pickle\nxml.sax.parse('f')\npickle.load(open('f', 'rb'))\n"),
              (["pixee:python/harden-pickle-load", "pixee:python/use-defusedxml", "pixee:python/flask-enable-csrf-protection"], ["defusedxml", "fickling", "flask-wtf"], "import xml.sax\nimport pickle\nfrom flask import Flask\napp = Flask(__name__)\nxml.sax.parse('f')\npickle.load(open('f', 'rb'))\n")]
-    for k in range(8 if tier == "quick" else 80):
+    for k in range(16 if tier == "quick" else 96):
         cids, pkgs, src = MULTI[k % len(MULTI)]
         kind = sorted(GEN)[(k // len(MULTI)) % 4]
-        text = GEN[kind](rnd, None)
+        first_pkg = TRIG[cids[0]][1]
+        declared_first = first_pkg + ">=0.1" if (k // len(MULTI)) % 2 else None      # the package of the FIRST codemod is already declared: the later codemods' packages must still arrive
+        text = GEN[kind](rnd, declared_first)
         try: parse(kind, text)
         except Exception: continue
-        jobs.append({"id": f"multi{k}", "cid": ",".join(cids), "pkg": pkgs[0], "pkgs": pkgs, "presence": None, "manifests": {kind: text}, "files": {"app.py": b64(src.encode()), kind: b64(text.encode())},
+        jobs.append({"id": f"multi{k}", "cid": ",".join(cids), "pkg": pkgs[0], "pkgs": pkgs, "presence": declared_first, "manifests": {kind: text}, "files": {"app.py": b64(src.encode()), kind: b64(text.encode())},
                      "argv": ["{proj}", "--output", "{out}", "--codemod-include", ",".join(cids)], "repeat": 2, "monitors": {"snap": False}})
     return jobs
 
@@ -221,7 +223,13 @@ def judge(job, res):
         if oa != ob: v.append(Violation("C14", f"unrelated-content-changed/{kind}", "non-dependency content differs", dict(w, after=after)))
         for pk in [canonicalize_name(x) for x in job.get("pkgs", [job["pkg"]])]:
             if na[pk] > 1: v.append(Violation("C14", (f"duplicate-requirement/{kind}" + ("/several-codemods-one-run" if "pkgs" in job else "")) if nb[pk] == 0 else "name-not-canonicalised", f"{pk} declared {na[pk]} times", dict(w, after=after)))
-        if nb[pkg] >= 1 and after != before: 
+        if "pkgs" in job:
+            gained = [pk for pk in map(canonicalize_name, job["pkgs"]) if na[pk] > nb[pk]]; absent = [pk for pk in map(canonicalize_name, job["pkgs"]) if na[pk] == 0]
+            if gained and absent: v.append(Violation("C14", f"needed-requirement-missing/{kind}/several-codemods-one-run", f"{kind} gained {gained} but not {absent}, which a codemod of the same run needs as well", dict(w, after=after)))
+            if not gained and absent and nb[pkg] >= 1 and len(job["manifests"]) == 1:
+                # the manifest holds a non-empty requirement list (it declares the first codemod's package): every writer can append to it, so "unable to add" is not an excuse here
+                v.append(Violation("C14", f"needed-requirement-missing/{kind}/several-codemods-one-run", f"{kind} declares {pkg} already; {absent} needed by later codemods of the same run never arrived", dict(w, after=after)))
+        if nb[pkg] >= 1 and after != before and "pkgs" not in job: 
             if na[pkg] <= 1: v.append(Violation("C14", f"touched-although-declared/{kind}", "manifest modified although package already declared", dict(w, after=after)))
         extra = (na - nb); extra.pop(pkg, None)
         for pk in job.get("pkgs", []): extra.pop(canonicalize_name(pk), None)
